@@ -342,7 +342,28 @@ pub fn gen_wide(rng: &mut Rng, cap: usize, full: bool) -> (Vec<u8>, &'static str
             // wide rather than deep: many siblings (signers, recipients, keys, extra parameters)
             // n items; the per-item size differs per shape, each arm clamps n to what fits into `cap`
             let n = if full { cap } else { rng.log_uniform(1, cap.max(2) as u64) as usize };
-            match rng.below(8) {
+            match rng.below(11) {
+                8 | 9 | 10 => {
+                    // n distinct TEXT labels (3 characters each) in a header / claims set / key
+                    let n = n.min(cap / 6).min(400_000);
+                    let which = rng.below(3);
+                    let mut o = Vec::new();
+                    if which == 2 {
+                        o.extend(head(5, n as u64 + 1));
+                        o.extend([0x01, 0x01]);
+                    } else {
+                        o.extend(head(5, n as u64));
+                    }
+                    for i in 0..n {
+                        let c = |k: usize| b'a' + ((i / 26usize.pow(k as u32)) % 26) as u8;
+                        o.extend([0x64, c(0), c(1), c(2), c(3), 0x00]);
+                    }
+                    match which {
+                        0 => carry_header(rng, &o),
+                        1 => (o, "ClaimsSet"),
+                        _ => (o, "CoseKey"),
+                    }
+                }
                 4 => {
                     // array of n counter signatures in a header
                     let n = n.min(cap / 5);
@@ -421,6 +442,11 @@ pub fn gen_wide(rng: &mut Rng, cap: usize, full: bool) -> (Vec<u8>, &'static str
 
 /// One nesting case.  `cap` bounds the size in bytes.
 pub fn gen_nest(rng: &mut Rng, cap: usize) -> Case {
+    gen_nest_opt(rng, cap, false)
+}
+
+/// `full_depth`: nest as deep as the size cap allows.
+pub fn gen_nest_opt(rng: &mut Rng, cap: usize, full_depth: bool) -> Case {
     let kind = rng.below(NEST_KINDS.len());
     let sig0: &[u8] = &[0x83, 0x40, 0xa0, 0x40];
     let rcpt0: &[u8] = &[0x83, 0x40, 0xa0, 0xf6];
@@ -429,6 +455,7 @@ pub fn gen_nest(rng: &mut Rng, cap: usize) -> Case {
         let max = (cap / per_level).max(2) as u64;
         // half the cases hover around the limits that exist (ciborium's 256, any COSE-level bound)
         let d = match rng.below(4) {
+            _ if full_depth => max as usize,
             0 => rng.range(1, 40.min(max as usize)),
             1 => rng.range(1, 300.min(max as usize)),
             _ => rng.log_uniform(1, max) as usize,
